@@ -187,8 +187,28 @@ def corr_bnafld(c, tier, rng):
         c.count("lmme:" + kind)
         if kind == "excluded":
             c.count("lmme:excluded:impl-" + ("nan" if np.any(np.isnan(want)) else "no-nan"))
+    # ---- the GENERATED network (Gen/BnafGen.lean: `transform`, `transform_and_log_det`, `inverse_and_log_det`,
+    #      `_activation_and_log_jacobian_3d`, `block_autoregressive_linear` + its closure, the wrapper nest unwrapped through the generated
+    #      `.unwrap()` bodies and generated masks) on the SAME inputs, against the SAME values of the real object (driver ops `g…`)
+    glines, gchecks = [], []
+    for line, (kind, want, info) in zip(lines, checks):
+        op = line.split(" ", 1)[0]
+        if op in ("bnafld", "bnafild", "bnaflj", "actlj"):
+            glines.append("g" + line)
+            gchecks.append((kind, want, dict(info, generated=True)))
+            c.case(("g" + op,) + tuple(str(info.get(k)) for k in ("dim", "cond_dim", "depth", "block_dim", "activation", "mode", "layer", "excluded")), True)
+            c.count("generated:" + op)
+        if op == "bnafld":
+            glines.append("gbnaft" + line[len("bnafld"):])
+            gchecks.append(("pt", want[0], dict(info, generated=True)))
+            c.count("generated:transform")
+    lines, checks = lines + glines, checks + gchecks
     outs = vlib.run_model(lines)
     for line, got, (kind, want, info) in zip(lines, outs, checks):
+        if kind == "pt":
+            if got.startswith("ERR") or not vlib.allclose(b2fs(got), want, **TOL):
+                c.mismatch("bnafgen-transform-point-vs-impl", op=line[:300], model=got[:200], impl=want, **info)
+            continue
         if got.startswith("ERR"):
             c.mismatch("bnafld-model-rejected-op", op=line[:300], model=got, **info)
             continue
